@@ -834,6 +834,9 @@ def premise_entry(ctx, rule="E", sizes=((FIVE, 5), (SIX, 6), (SEVEN, 7))):
             ref = ctx.summ(k_v, [("r", h)], sty_v, opaque={k_and}).ret
             sm = ctx.summ(k_g, [("r", h)], sty, opaque={k_and, k_valid})
             r = sm.ret
+            if not any(x[0] == "call" and x[1] == "fn:" + k_valid for x in walk(r)):
+                gate_by_patterns(ctx, rule, path, n, k_g, sty, k_and)
+                return
             res = {}
             refv = {}
             for iv in (0, 1):
@@ -862,6 +865,43 @@ def premise_entry(ctx, rule="E", sizes=((FIVE, 5), (SIX, 6), (SEVEN, 7))):
 
 # -------------------------------------------------------------------------------------------------
 # C01
+
+def gate_by_patterns(ctx, rule, path, n, k_g, sty, k_and):
+    """The validated ranking does not go through is_valid(): decide its gate on abstract hands instead — every way
+    the slots can coincide (set partitions, real cards) and every subset of slots holding a non-card word."""
+    rep, pdb = ctx.rep, ctx.pdb
+    h = ctx.hand(path, n)
+    sm = ctx.summ(k_g, [("r", h)], sty, opaque={k_and})
+    r = sm.ret
+    deck = [oracle.card_word(rk, su) for (rk, su) in oracle.deck_order()]
+    noncards = [0, 1, 0xFFFFFFFF, deck[0] | (1 << 29), deck[5] ^ 1, deck[9] ^ (1 << 20), 7]
+    cases = []
+    for t in set_partition_orderings(n):
+        if len(set(t)) == n and list(t) != sorted(t):
+            continue
+        cases.append(([deck[3 * b + 1] for b in t], len(set(t)) == n))
+    for mask in range(1, 1 << n):
+        words = [noncards[i % len(noncards)] if (mask >> i) & 1 else deck[4 * i + 2] for i in range(n)]
+        cases.append((words, False))
+    bad = None
+    for words, valid in cases:
+        env = {"s%d" % i: w for i, w in enumerate(words)}
+        env["$fn:%s#0" % k_and] = lambda a: C(4242, "u16")
+        env["$fn:" + k_and] = lambda a: agg(("tuple",), (C(4242, "u16"), UNIT))
+        env["$contract:find_in_products"] = lambda k: C(0, "usize")
+        try:
+            got = cval(evaluate(pdb, r, env))
+        except (Uncertified, IndexError) as e:
+            rep.uncertified(rule + ".validity-gate", "%s: %s" % (short(path), e), pdb.where(k_g))
+            return
+        if got != (4242 if valid else 0):
+            bad = bad or (words, got)
+    rep.evals(len(cases))
+    rep.ob(rule + ".validity-gate", short(path), bad is None,
+           "hand_rank_value_validated on %s gives %s (must be 0 exactly for hands that are not %d distinct real cards, the unvalidated value otherwise)" % ([hex(w) for w in bad[0]] if bad else "", bad[1] if bad else "", n), pdb.where(k_g))
+    rep.note("%s: validity gate of %s not expressed through is_valid(); decided on %d abstract hands (coincidence patterns x non-card subsets)" % (rule, short(path), len(cases)))
+    rep.extra["exhaustive"] = False
+
 
 def check_C01(ctx):
     rep, pdb = ctx.rep, ctx.pdb
@@ -1658,6 +1698,37 @@ def check_C04(ctx):
                     direct.add(x[1])
                 stack.extend(children(x))
             bad = None
+            if direct:
+                # slots are also read directly (e.g. `filter(c) != c || c == BLANK`): decide on abstract hands — every
+                # subset of slots holding a non-card word (several kinds), real cards elsewhere — with the filter inlined
+                full = ctx.summ(key, [("r", h)], sty).ret
+                deck = [oracle.card_word(rk, su) for (rk, su) in oracle.deck_order()]
+                kinds = [0, 1, 0xFFFFFFFF, deck[0] | (1 << 29), deck[7] ^ 1, deck[11] ^ (1 << 20), deck[3] ^ (1 << 13), 7, 0x10000, 0x8000]
+                badp = None
+                cnt_ = 0
+                for pat in range(1 << n):
+                    for kshift in range(len(kinds) if pat else 1):
+                        env = {"s%d" % i: (kinds[(i + kshift) % len(kinds)] if (pat >> i) & 1 else deck[5 * i + 1]) for i in range(n)}
+                        cnt_ += 1
+                        try:
+                            got = cval(evaluate(pdb, full, env))
+                        except (Uncertified, IndexError):
+                            got = None
+                        if got != (1 if pat else 0):
+                            badp = badp or (pat, env)
+                rep.evals(cnt_)
+                rep.ob("V.is_corrupt", short(path), badp is None,
+                       "is_corrupt is wrong on a hand whose non-card slots are %s" % ([i for i in range(n) if (badp[0] >> i) & 1] if badp else ""), pdb.where(key))
+                rep.note("V.is_corrupt(%s) reads slot words directly; decided on %d abstract hands (non-card subsets x kinds of non-card word)" % (short(path), cnt_))
+                rep.extra["exhaustive"] = False
+                key2, sty2 = ctx.method(path, "contain_blank", HV)
+                r = ctx.summ(key2, [("r", h)], sty2).ret
+                badb = 0
+                for blank_at in [None] + list(range(n)):
+                    env = {"s%d" % i: (0 if i == blank_at else 7 + i) for i in range(n)}
+                    badb += 0 if cval(ctx.fold(r, env)) == (0 if blank_at is None else 1) else 1
+                rep.ob("V.contain_blank", short(path), badb == 0, "contain_blank is not `some slot equals BLANK`", pdb.where(key2))
+                return
             if not direct:
                 for pat in range(1 << n):
                     vals = {"s%d" % i: (0 if (pat >> i) & 1 else 1000 + i) for i in range(n)}
@@ -1708,7 +1779,32 @@ def check_C04(ctx):
             for o in sm.obligations:
                 if o.fn.endswith("::filter") or "are_unique" in o.fn:
                     continue
-                rep.ob("V.no-panic", "%s %s L%s" % (short(o.fn), o.kind, o.line), o.cond[0] == "c" and bool(o.cond[1]), "panic site on the validity path is not trivially safe", pdb.where(o.fn))
+                okk = o.cond[0] == "c" and bool(o.cond[1])
+                if not okk and o.cond[0] != "c":
+                    from ..evals import prove_obligation
+                    okk = prove_obligation(pdb, o.cond)
+                    if not okk:
+                        # look for a failing word among the near-miss alphabet (all slots the same kind of word)
+                        from .cards import near_miss_words
+                        ats = [a for a in atoms_of(o.cond) if a.startswith("s")]
+                        for c in o.pc:
+                            ats += [a for a in atoms_of(c) if a.startswith("s")]
+                        failing = None
+                        for wd in near_miss_words(ctx.words53()[1:]):
+                            env = {a: wd for a in set(ats)}
+                            try:
+                                if all(cval(evaluate(pdb, c, env)) for c in o.pc) and not cval(evaluate(pdb, o.cond, env)):
+                                    failing = wd
+                                    break
+                            except (IndexError, Uncertified):
+                                failing = wd
+                                break
+                        if failing is not None:
+                            rep.ob("V.no-panic", "%s %s L%s" % (short(o.fn), o.kind, o.line), False, "panic site %s in %s fails for the word %#x" % (o.kind, short(o.fn), failing), pdb.where(o.fn))
+                            continue
+                        rep.uncertified("V.no-panic", "panic site %s in %s (line %s) could not be bounded for arbitrary words" % (o.kind, short(o.fn), o.line), pdb.where(o.fn))
+                        continue
+                rep.ob("V.no-panic", "%s %s L%s" % (short(o.fn), o.kind, o.line), okk, "panic site on the validity path is not trivially safe", pdb.where(o.fn))
     ctx.guard("V.no-panic", nopanic)
     # on the valid edge the hand is made of distinct real cards: ranking returns (and is non-zero) by C01's premises
     tabs = ctx.guard("T", premise_tables, ctx, "T", "shape")
@@ -1747,7 +1843,7 @@ def check_C05(ctx):
     PR = tabs[2] if tabs else None
     if fac:
         n = discharge_residual_obligations(ctx, fac, "C05.panic-site.five", max_ranks=5, PR=PR)
-        rep.floor("C05.panic-site.five", n, 4)
+        rep.floor("C05.panic-site.five", n, 2)
         # a blank five ranks 0: at most four rank bits, no flush (a zero word clears the AND), product 0
         def blank():
             if fac["slots_left"] or PR is None:
@@ -1787,7 +1883,7 @@ def check_C05(ctx):
                 cnt += 1
                 rep.ob("C05.panic-site." + short(path).lower(), "%s %s L%s" % (short(o.fn), o.kind, o.line), o.cond[0] == "c" and bool(o.cond[1]),
                        "panic site %s in %s is not discharged (index taken from the table out of range?)" % (o.kind, short(o.fn)), "%s line %s" % (pdb.where(o.fn), o.line))
-            rep.floor("C05.panic-site." + short(path).lower(), cnt, 5)
+            rep.floor("C05.panic-site." + short(path).lower(), cnt, 1)
             # every ranked candidate is made of slots of the receiver (so it is again card-or-blank)
             slots = {"s%d" % i for i in range(n)}
             for x in walk(sm.ret):
@@ -1824,6 +1920,22 @@ def check_C05(ctx):
                                             okk = False
                                             break
                                     rep.evals(65536)
+                        elif not calls:
+                            # depends on slot words (e.g. arithmetic inside the card filter): every slot is one of the 53 constants
+                            ats = sorted({a for root in [o.cond] + list(o.pc) for a in atoms_of(root)})
+                            if ats and all(a.startswith("s") for a in ats) and len(ats) <= 2:
+                                from itertools import product as _prod
+                                okk = True
+                                for combo in _prod(ctx.words53(), repeat=len(ats)):
+                                    env = dict(zip(ats, combo))
+                                    try:
+                                        if all(cval(evaluate(pdb, c, env)) for c in o.pc) and not cval(evaluate(pdb, o.cond, env)):
+                                            okk = False
+                                            break
+                                    except IndexError:
+                                        okk = False
+                                        break
+                                rep.evals(53 ** len(ats))
                     rep.ob("C05.panic-site.entry", "%s::%s %s %s L%s" % (short(path), meth, short(o.fn), o.kind, o.line), okk, "panic site %s in %s" % (o.kind, short(o.fn)), pdb.where(o.fn))
             ctx.guard("V.are_unique." + short(path), premise_unique, ctx, path, n, "C05.are_unique")
     ctx.guard("C05.entries", entries)
